@@ -123,12 +123,13 @@ def select_oracle(trace):
         return []
     m = sel["move"]
     out = []
-    try:
-        child = tree.position.move(m)
+    try:        # judged on a private copy of the position as it was before the search
+        child = c08.rebuild(trace["tree_expected"]).move(m)
     except tak.IllegalMove:
-        return [{"clause": "the move returned for a position is a legal move of that position", "move": takio.j_move(m)}]
+        return [{"clause": "the move returned for a position is a legal move of that position", "move": takio.j_move(m),
+                 "position": c08.j_snap(trace["tree_expected"])}]
     idx = sel["choices"][-1] if sel["choices"] else None
-    if idx is None or tree.children[idx].move != m or tree.children[idx].position != child:
+    if idx is None or tree.children[idx].move != m or c08.snap(tree.children[idx].position) != c08.snap(child):
         out.append({"clause": "the move returned is the sampled child's move", "move": takio.j_move(m), "sampled": idx})
     return out
 
@@ -168,7 +169,7 @@ def examine(trace):
 
 def volumes(run):
     if run.quick:
-        return dict(count=40, sizes=[3, 4], max_budget=40, transformer=1)
+        return dict(count=40, sizes=[3, 4], max_budget=40, transformer=1, smash=(3, 0))
     return dict(count=400, sizes=[3, 4, 3, 4, 5, 3, 4, 6], max_budget=160, transformer=4)
 
 
